@@ -3,6 +3,8 @@ import SeqIoModel.Proofs.FastqStream
 import SeqIoModel.Proofs.FastaHistoryTotal
 import SeqIoModel.Proofs.FastqHistorySafe
 import SeqIoModel.Proofs.FastqHistoryGenuine
+import SeqIoModel.Proofs.FastaOrderAfterFault
+import SeqIoModel.Proofs.FastqOrderAfterFault
 /-!
 # C06 – readers are total: no panic, hang or fabricated record
 
@@ -104,5 +106,70 @@ theorem fastq_any_history_genuine (inp : List UInt8) (cap : Nat) (hcap : 3 ≤ c
     ∀ o ∈ Fastq.Hist.runM (Fastq.Hist.mkM inp cap pol script chunk seekFails) ops,
       ∀ x ∈ Fastq.recsOf o, x ∈ Fastq.allRecs inp :=
   Fastq.fastq_history_genuine inp cap hcap pol hpol script chunk seekFails ops hops
+
+/-! ## "… or further genuine records IN ORDER": the order of what is delivered after errors -/
+
+/-- FASTA: under ARBITRARY read scripts (failures anywhere), scripted seek failures and refusing
+policies, along any history without seeks the records returned by single reads (`next` / owned
+reads; (header, concatenated sequence)) form, in the order they were returned, a sub-sequence of S's
+records – none twice, none out of order, whatever errors occurred in between and whatever set reads
+were interleaved -/
+theorem fasta_records_in_order_after_faults (inp : List UInt8) (cap : Nat) (hcap : 3 ≤ cap) (pol : Pol)
+    (hpol : Fasta.PolWfPos pol) (script : List ReadEv) (chunk : Nat) (seekFails : List (Nat × IoKind))
+    (ops : List Fasta.Hist.Op) (hsf : Fasta.Hist.SeekFree ops) :
+    List.Sublist
+      (Fasta.Hist.singles (Fasta.Hist.runM (Fasta.Hist.mkMStF inp cap pol script chunk seekFails) ops))
+      ((Fasta.Hist.items inp).recs.map fun rc => (rc.head, rc.seq)) :=
+  Fasta.Hist.fasta_records_in_order_after_faults inp cap hcap pol hpol script chunk seekFails ops hsf
+
+/-- … and so does everything delivered – single reads AND the batches of record set reads (each
+batch as a `dump` of the set right after the call shows it), in the order of the calls -/
+theorem fasta_all_delivered_in_order_after_faults (inp : List UInt8) (cap : Nat) (hcap : 3 ≤ cap)
+    (pol : Pol) (hpol : Fasta.PolWfPos pol) (script : List ReadEv) (chunk : Nat)
+    (seekFails : List (Nat × IoKind)) (ops : List Fasta.Hist.Op) (hsf : Fasta.Hist.SeekFree ops) :
+    List.Sublist (Fasta.Hist.delivered (Fasta.Hist.mkMStF inp cap pol script chunk seekFails) ops)
+      ((Fasta.Hist.items inp).recs.map fun rc => (rc.head, rc.seq)) :=
+  Fasta.Hist.fasta_all_delivered_in_order_after_faults inp cap hcap pol hpol script chunk seekFails ops hsf
+
+/-- … and every batch is a contiguous segment of S's records (any history, seeks included): a `dump`
+right after a record set read that returned `c` records shows the records `k0, …, k0 + c - 1` -/
+theorem fasta_batch_contiguous_after_faults (inp : List UInt8) (cap : Nat) (hcap : 3 ≤ cap)
+    (pol : Pol) (hpol : Fasta.PolWfPos pol) (script : List ReadEv) (chunk : Nat)
+    (seekFails : List (Nat × IoKind)) (ops : List Fasta.Hist.Op) (j : Nat) (n : Option Nat) (c : Nat)
+    (o : Fasta.Hist.ObsH)
+    (h : Fasta.Hist.runM (Fasta.Hist.mkMStF inp cap pol script chunk seekFails)
+        (ops ++ [.set j n, .dump j]) =
+      Fasta.Hist.runM (Fasta.Hist.mkMStF inp cap pol script chunk seekFails) ops ++ [.batch c, o]) :
+    ∃ k0, 1 ≤ c ∧ k0 + c ≤ (Fasta.Hist.items inp).recs.length ∧
+      o = .dump ((((Fasta.Hist.items inp).recs.drop k0).take c).map Fasta.Hist.view) :=
+  Fasta.Hist.fasta_batch_contiguous_after_faults inp cap hcap pol hpol script chunk seekFails ops j n c o h
+
+/-- FASTQ: the same three statements (well-formed histories, as in `fastq_any_history_genuine`) -/
+theorem fastq_records_in_order_after_faults (inp : List UInt8) (cap : Nat) (hcap : 3 ≤ cap) (pol : Pol)
+    (hpol : PolWf pol) (script : List ReadEv) (chunk : Nat) (seekFails : List (Nat × IoKind))
+    (ops : List Fastq.Hist.Op) (hops : ∀ op ∈ ops, op.wf = true) (hsf : Fastq.Hist.SeekFree ops) :
+    List.Sublist
+      (Fastq.Hist.singles (Fastq.Hist.runM (Fastq.Hist.mkM inp cap pol script chunk seekFails) ops))
+      (Fastq.allRecs inp) :=
+  Fastq.fastq_records_in_order_after_faults inp cap hcap pol hpol script chunk seekFails ops hops hsf
+
+theorem fastq_all_delivered_in_order_after_faults (inp : List UInt8) (cap : Nat) (hcap : 3 ≤ cap)
+    (pol : Pol) (hpol : PolWf pol) (script : List ReadEv) (chunk : Nat)
+    (seekFails : List (Nat × IoKind)) (ops : List Fastq.Hist.Op) (hops : ∀ op ∈ ops, op.wf = true)
+    (hsf : Fastq.Hist.SeekFree ops) :
+    List.Sublist (Fastq.Hist.delivered (Fastq.Hist.mkM inp cap pol script chunk seekFails) ops)
+      (Fastq.allRecs inp) :=
+  Fastq.fastq_all_delivered_in_order_after_faults inp cap hcap pol hpol script chunk seekFails ops hops hsf
+
+theorem fastq_batch_contiguous_after_faults (inp : List UInt8) (cap : Nat) (hcap : 3 ≤ cap)
+    (pol : Pol) (hpol : PolWf pol) (script : List ReadEv) (chunk : Nat)
+    (seekFails : List (Nat × IoKind)) (ops : List Fastq.Hist.Op) (hops : ∀ op ∈ ops, op.wf = true)
+    (j : Nat) (n : Option Nat) (hwf : (Fastq.Hist.Op.set j n).wf = true) (c : Nat) (o : Fastq.Hist.ObsH)
+    (h : Fastq.Hist.runM (Fastq.Hist.mkM inp cap pol script chunk seekFails) (ops ++ [.set j n, .dump j]) =
+      Fastq.Hist.runM (Fastq.Hist.mkM inp cap pol script chunk seekFails) ops ++ [.batch c, o]) :
+    ∃ (k : Nat) (ys : List Spec.FqRec), 1 ≤ c ∧ ys.length = c ∧
+      ((Spec.fastq inp).drop k).take c = ys.map Spec.FqItem.record ∧
+      o = .dump (ys.map Fastq.Hist.recOf) :=
+  Fastq.fastq_batch_contiguous_after_faults inp cap hcap pol hpol script chunk seekFails ops hops j n hwf c o h
 
 end SeqIo.Thm.C06
